@@ -27,7 +27,7 @@ from mc.adapt import HarnessBinding
 VERIF = os.path.dirname(os.path.dirname(os.path.abspath(__file__)))
 REPO = os.environ.get('PGPY_REPO', '/repo')
 PY = sys.executable
-CASE_TIMEOUT = int(os.environ.get('VERIF_CASE_TIMEOUT', '60'))
+CASE_TIMEOUT = int(os.environ.get('VERIF_CASE_TIMEOUT', '900'))
 
 
 def bind_repo():
